@@ -19,7 +19,7 @@ class StrImmediateArm(Opcode):
             address = offset_addr if self.index else processor.registers.get(self.n)
             processor.mem_u_set(
                 address, 4,
-                processor.registers.pc_store_value() if self.t == 15 else processor.registers.get(self.t)
+                processor.registers.get_pc() if self.t == 15 else processor.registers.get(self.t)
             )
             if self.wback:
                 processor.registers.set(self.n, offset_addr)
